@@ -111,6 +111,11 @@ func genRelabels(t *rapid.T, label string, metric bool, max int) []Relabel {
 			r.Source = []string{rapid.SampledFrom(src).Draw(t, l+"-s0")}
 			r.Modulus = uint64(rapid.IntRange(2, 16).Draw(t, l+"-mod"))
 			r.Target = "__tmp_hash"
+			// the documented idiom for scraping a part of the targets: hashmod, then keep on the result
+			if rapid.IntRange(0, 2).Draw(t, l+"-keepPart") > 0 {
+				out = append(out, r)
+				r = Relabel{Action: "keep", Source: []string{"__tmp_hash"}, Regex: rapid.SampledFrom([]string{"0", "1", "0|1", "$(SHARD)"}).Draw(t, l+"-part")}
+			}
 		}
 		out = append(out, r)
 	}
